@@ -154,6 +154,11 @@ impl Th<'_> {
                             let m = panic_catcher_get_backtrace().map(|s| msg_id(&s)).unwrap_or(0);
                             self.obs.push(json!({"k": "bt", "m": m}));
                         }
+                        "swallow" => {
+                            // a panic the body recovers from by itself (plain catch_unwind, no catcher frame)
+                            let m = 100 * self.t + pos;
+                            let _ = std::panic::catch_unwind(move || panic!("msg-{}", m));
+                        }
                         "panic" => panic!("msg-{}", 100 * self.t + pos),
                         _ => {}
                     }
@@ -302,7 +307,8 @@ pub fn gen_panic(seed: u64, rounds: usize, len: usize, out: &mut Vec<Value>) {
             let mut s: Vec<String> = Vec::new();
             let mut depth = 0usize;
             while s.len() < len {
-                let o = match r.random_range(0..16) {
+                let o = match r.random_range(0..17) {
+                    16 => "swallow",
                     0 | 1 => "enable",
                     2 => "disable",
                     3 | 4 => "enter",
